@@ -84,9 +84,10 @@ class IdAllocator:
 
 
 def install_id_seam(policy, seed):
-    from ak import ppobj
+    from ak import ppobj, color, hdoc, ghist
     alloc = IdAllocator(policy, seed)
-    ppobj.id = alloc
+    for mod in (ppobj, color, hdoc, ghist):
+        mod.id = alloc          # module global shadowing the builtin
     return alloc
 
 
